@@ -120,6 +120,7 @@ type interpreter struct {
 	harnessState map[string]value
 	fdTick    int
 	tick      int // logical clock for vrt.Tick
+	fallbacks map[string]*smt.Solver
 }
 
 type deferred struct {
